@@ -69,6 +69,21 @@ def _classify(job):
                             "poly %s %s %s points(doubled) %s" % (
                                 case["poly"], vname, tname, bad)))
                 continue
+            # the data arrays may have any numeric type: points with
+            # integral x given as integers, and x given as float32
+            if tname == "identity" and vname == "as given":
+                ix = np.flatnonzero(tp[:, 0] == np.round(tp[:, 0]))
+                if len(ix):
+                    goti = pf.filter(tp[ix, 0].astype(np.int64), tp[ix, 1])
+                    if not np.array_equal(goti, want[ix]):
+                        out.append(("classification depends on the data "
+                                    "type of the x data (integers)",
+                                    "poly %s" % (case["poly"],)))
+                gotf = pf.filter(tp[:, 0].astype(np.float32), tp[:, 1])
+                if not np.array_equal(gotf, want):
+                    out.append(("classification depends on the data type "
+                                "of the x data (float32)",
+                                "poly %s" % (case["poly"],)))
             pf.inverted = True
             if not np.array_equal(pf.filter(tp[:, 0], tp[:, 1]), ~want):
                 out.append(("inverted filter is not the complement",
